@@ -1,20 +1,20 @@
 /* UNIT
 {
  "id": "DRV.buildobj",
- "file": "driver.c", "function": "buildobj", "also_functions": ["spawnphase", "spawn", "succeeded"],
+ "file": "driver.c", "function": "buildobj", "also_functions": ["succeeded", "changeext"],
  "properties": {"C18": "contract", "C19": "safety"},
  "mode": "dfcc", "enforce": "buildobj/buildobj_contract",
- "kind": "proof-const-unwind", "unwind": 9,
+ "replace_calls": {"spawnphase": "rec_spawnphase"},
+ "kind": "proof-const-unwind", "unwind": 8, "unwindset": ["strlen.0:20", "strcpy.0:20"],
  "noreturn_macros": false, "stubs": ["os_model.c"], "link_repo": ["util.c"],
  "cbmc_flags": ["--no-malloc-may-fail"],
  "timeout": 200,
  "expects": ["postcondition", "assertion_verif", "assigns"],
- "assumes": ["OS model stubs/os_model.c: a child is reported by wait() exactly once, wait() does not block forever and fails only when no child is left; posix_spawnp leaves *pid alone on failure (glibc, musl; POSIX says unspecified)",
+ "assumes": ["OS model stubs/os_model.c: a child is reported by wait() exactly once, wait() does not block forever and fails only when no child is left",
+             "spawnphase() is replaced by rec_spawnphase(): either fails with any errno leaving nothing behind, or starts one child for that stage (osm_stage_start); unit DRV.spawnphase proves the real spawnphase has exactly these two outcomes",
              "memory allocation in the driver does not fail (--no-malloc-may-fail): util.c fatal() on OOM exits 1 without cleanup, outside C18's fault model",
-             "posix_spawn_file_actions_adddup2(fd, 0) does not fail (spawnphase ignores its result, driver.c:161)",
-             "flags.verbose is off (the -v listing is stdio only)",
              "no earlier temporary exists (first input); the multi-input case is unit DRV.buildobj.prevtmp",
-             "stage command vectors hold 1..4 base arguments in a 32-byte array (growth through the real arrayadd is exercised)"]
+             "at most one unrelated child is reported by wait()"]
 }
 */
 #include "drv_common.h"
@@ -26,9 +26,33 @@ char *g_name0;               /* input->name at entry */
 char *g_out;                 /* the output argument */
 int g_outdash;               /* output is "-" */
 int g_namedash;              /* input->name is "-" (standard input) */
-int g_k;                     /* an arbitrary child index: "for every spawned stage" without a quantifier */
-void *g_arg0[NSTAGES];       /* first word of each stage's base command */
-size_t g_base[NSTAGES];      /* cmdbase of each stage */
+int *g_errno;               /* &errno (the OS model sets it) */
+int g_k;                     /* an arbitrary attempt index: "for every spawned stage" without a quantifier */
+
+/* what the stub that stands for spawnphase() was asked to do, per attempt */
+struct rec {
+	struct stageinfo *phase;
+	char *input, *output;
+	int fd_in;
+	bool last;
+} rec[OSM_MAXCHILD];
+
+int
+rec_spawnphase(struct stageinfo *phase, int *fd, char *input, char *output, bool last)
+{
+	int i;
+
+	for (i = 0; i < OSM_MAXCHILD; ++i) {
+		if (i == osm.nattempt) {
+			rec[i].phase = phase;
+			rec[i].input = input;
+			rec[i].output = output;
+			rec[i].fd_in = *fd;
+			rec[i].last = last;
+		}
+	}
+	return osm_stage_start(&phase->pid, fd, last);
+}
 
 #define LINKING      ((g_stages0 >> LINK & 1) != 0)
 #define NRUN         popcount5(PRELINK(g_stages0))                 /* stages that must be spawned */
@@ -38,12 +62,8 @@ size_t g_base[NSTAGES];      /* cmdbase of each stage */
 /* the file the pipeline produces, as far as the caller can name it: the -o argument unless it is "-" */
 #define NAMED_OUT    (!LINKING && g_out != 0 && !g_outdash)
 #define TO_STDOUT    (!LINKING && ((g_out != 0 && g_outdash) || (g_out == 0 && PRELINK(g_stages0) == 1u)))
-/* argv of child k: base command, then "-o" output for the last stage when there is an output file, then the input
-   file for the first stage when it is not standard input, then NULL */
-#define ARGV(k)      (CH(k).argv)
-#define NBASE(k)     ((int)(g_base[STAGE_OF(k)] / sizeof(char *)))
-#define HAS_O(k)     (ISLAST(k) && !TO_STDOUT)
-#define HAS_IN(k)    ((k) == 0 && !g_namedash)
+#define RUNS         (g_ft != OBJ)
+#define ZEROPIDS     (stages[0].pid == 0 && stages[1].pid == 0 && stages[2].pid == 0 && stages[3].pid == 0 && stages[4].pid == 0)
 
 #define PRE(X) \
 	X(input != 0 && input->name != 0 && input->name == g_name0) \
@@ -53,48 +73,41 @@ size_t g_base[NSTAGES];      /* cmdbase of each stage */
 	X(IMP(g_out != 0, g_outdash == (g_out[0] == '-' && g_out[1] == 0))) \
 	X(g_namedash == (g_name0[0] == '-' && g_name0[1] == 0)) \
 	/* invariant of main's loop (and a postcondition below): no stage process is pending */ \
-	X(stages[0].pid == 0 && stages[1].pid == 0 && stages[2].pid == 0 && stages[3].pid == 0 && stages[4].pid == 0) \
-	X(!flags.verbose) \
-	X(osm.nchild == 0 && osm.nfail == 0 && osm.ntmp == 0 && osm.nunlink == 0 && osm.nopen == 0 && osm.exited == 0) \
+	X(ZEROPIDS) \
+	X(osm.nattempt == 0 && osm.spawned == 0 && osm.nfail == 0 && osm.ntmp == 0 && osm.nunlink == 0 && osm.fd_open == 0 && osm.exited == 0) \
+	X(g_errno == &errno) \
 	X(g_k >= 0 && g_k < NSTAGES)
 
 /* (a) normal return */
 #define POST(X) \
-	X(IMP(g_ft == OBJ, osm.nspawn == 0 && input->name == g_name0 && input->stages == g_stages0)) \
-	/* every requested stage was started exactly once, none failed to start */ \
-	X(IMP(g_ft != OBJ, osm.nspawn == NRUN && osm.nchild == NRUN)) \
+	X(IMP(!RUNS, osm.nspawn == 0 && input->name == g_name0 && input->stages == g_stages0)) \
+	/* every requested stage was started exactly once, in pipeline order */ \
+	X(IMP(RUNS, osm.nspawn == NRUN && osm_nchild() == NRUN)) \
+	X(IMP(RUNS && g_k < NRUN, rec[g_k].phase == &stages[STAGE_OF(g_k)])) \
 	/* every spawned stage exited with status 0 ... */ \
-	X(IMP(g_ft != OBJ, osm.nfail == 0)) \
+	X(IMP(RUNS, osm.nfail == 0)) \
 	/* ... and was reaped */ \
-	X(IMP(g_ft != OBJ, osm_nlive() == 0)) \
-	X(IMP(g_ft != OBJ, input->stages == 0)) \
+	X(IMP(RUNS, osm_nlive() == 0)) \
+	X(IMP(RUNS, input->stages == 0)) \
 	/* input->name is the produced file */ \
-	X(IMP(g_ft != OBJ && LINKING, osm.ntmp == 1 && input->name == osm.tmp[0] && osm_tmp_left() == 1)) \
-	X(IMP(g_ft != OBJ && NAMED_OUT, input->name == g_out)) \
-	X(IMP(g_ft != OBJ && TO_STDOUT, input->name == 0)) \
-	X(IMP(g_ft != OBJ && !LINKING && !NAMED_OUT && !TO_STDOUT, input->name != 0 && input->name != g_name0)) \
-	/* the output stays in place: nothing is removed, nobody is signalled without cause */ \
+	X(IMP(RUNS && LINKING, osm.ntmp == 1 && input->name == osm.tmp[0] && osm_tmp_left() == 1)) \
+	X(IMP(RUNS && NAMED_OUT, input->name == g_out)) \
+	X(IMP(RUNS && TO_STDOUT, input->name == 0)) \
+	X(IMP(RUNS && !LINKING && !NAMED_OUT && !TO_STDOUT, input->name != 0 && input->name != g_name0)) \
+	/* the output stays in place: nothing is removed, nobody is signalled */ \
 	X(osm.nunlink == 0) \
 	X(osm.badkill == 0) \
 	X(osm.nkill == 0) \
 	/* no stage process pending: establishes PRE for the next input */ \
-	X(stages[0].pid == 0 && stages[1].pid == 0 && stages[2].pid == 0 && stages[3].pid == 0 && stages[4].pid == 0) \
-	/* the pipeline: child g_k is stage STAGE_OF(g_k), reads the pipe its predecessor writes, first reads no pipe, \
-	   last writes no pipe; no stage inherits a stray pipe descriptor (downstream must see EOF) */ \
-	X(IMP(g_ft != OBJ && g_k < NRUN, CH(g_k).pidp == &stages[STAGE_OF(g_k)].pid)) \
-	X(IMP(g_ft != OBJ && g_k < NRUN && g_k == 0, CH(g_k).in_fd == -1)) \
-	X(IMP(g_ft != OBJ && g_k < NRUN && g_k > 0, CH(g_k).in_pipe != -1 && CH(g_k).in_pipe == CH(g_k > 0 ? g_k - 1 : 0).out_pipe)) \
-	X(IMP(g_ft != OBJ && g_k < NRUN && ISLAST(g_k), CH(g_k).out_fd == -1)) \
-	X(IMP(g_ft != OBJ && g_k < NRUN && !ISLAST(g_k), CH(g_k).out_pipe != -1)) \
-	X(IMP(g_ft != OBJ && g_k < NRUN, CH(g_k).leaked == 0)) \
-	X(osm_write_ends_open() == 0) \
-	X(osm.badclose == 0 && osm.fa_bad == 0 && osm.fa_destroyed == 1) \
-	/* each tool gets its base command, "-o output" on the last stage, the input file on the first */ \
-	X(IMP(g_ft != OBJ && g_k < NRUN, ARGV(g_k) == stages[STAGE_OF(g_k)].cmd.val && ARGV(g_k)[0] == g_arg0[STAGE_OF(g_k)])) \
-	X(IMP(g_ft != OBJ && g_k < NRUN, CH(g_k).argc == NBASE(g_k) + 2 * HAS_O(g_k) + HAS_IN(g_k))) \
-	X(IMP(g_ft != OBJ && g_k < NRUN && HAS_O(g_k), ARGV(g_k)[NBASE(g_k)][0] == '-' && ARGV(g_k)[NBASE(g_k)][1] == 'o' && ARGV(g_k)[NBASE(g_k)][2] == 0)) \
-	X(IMP(g_ft != OBJ && g_k < NRUN && HAS_O(g_k), ARGV(g_k)[NBASE(g_k) + 1] == input->name)) \
-	X(IMP(g_ft != OBJ && g_k < NRUN && HAS_IN(g_k), ARGV(g_k)[NBASE(g_k) + 2 * HAS_O(g_k)] == g_name0)) \
+	X(ZEROPIDS) \
+	/* the pipeline: the first stage reads the input file (or the driver's stdin), each later stage reads the pipe \
+	   its predecessor writes; only the last stage gets the output file */ \
+	X(IMP(RUNS && g_k < NRUN && g_k == 0, rec[g_k].fd_in == -1 && rec[g_k].input == (g_namedash ? (char *)0 : g_name0))) \
+	X(IMP(RUNS && g_k < NRUN && g_k > 0, CH(g_k).in_pipe != -1 && CH(g_k).in_pipe == CH(g_k > 0 ? g_k - 1 : 0).out_pipe)) \
+	X(IMP(RUNS && g_k < NRUN, rec[g_k].last == ISLAST(g_k))) \
+	X(IMP(RUNS && g_k < NRUN && ISLAST(g_k), rec[g_k].output == input->name)) \
+	/* the mkstemp descriptor is closed again */ \
+	X(osm.badclose == 0 && (osm.fd_open >> (2 * OSM_MAXCHILD)) == 0) \
 	CANARY(X, !(g_stages0 == 15 && g_k == 2 && g_out == 0))
 
 /* (b) exit(status): clauses evaluated by the OS model when the real code calls exit() */
@@ -110,59 +123,29 @@ osm_at_exit(int status)
 	__CPROVER_assert(IMP(NAMED_OUT && osm.nspawn > 0, osm_was_unlinked(g_out)), "EXIT the -o output file was unlinked");
 	__CPROVER_assert(IMP(TO_STDOUT, osm.nunlink == 0), "EXIT nothing is unlinked when the output is standard output");
 	__CPROVER_assert(IMP(!TO_STDOUT && osm.nspawn > 0, osm.nunlink == 1), "EXIT exactly the output file was unlinked");
-	__CPROVER_assert(IMP(osm.nunlink == 1, osm.unlinked[0] != g_name0), "EXIT the input file is never unlinked");
-#ifdef VERIF_CANARY_EXIT
-	__CPROVER_assert(!(g_stages0 == 7 && osm.nspawnfail == 0), "CANARY exit reachable");
-#endif
+	__CPROVER_assert(IMP(osm.nunlink >= 1, osm.unlinked[0] != g_name0), "EXIT the input file is never unlinked");
 }
 
 static void buildobj_contract(struct input *input, char *output)
 REQUIRES(PRE)
-__CPROVER_assigns(input->name, input->stages, osm, __CPROVER_object_whole(stages),
-                  __CPROVER_object_whole(stages[0].cmd.val), __CPROVER_object_whole(stages[1].cmd.val),
-                  __CPROVER_object_whole(stages[2].cmd.val), __CPROVER_object_whole(stages[3].cmd.val),
-                  __CPROVER_object_whole(stages[4].cmd.val))
-__CPROVER_frees(stages[0].cmd.val, stages[1].cmd.val, stages[2].cmd.val, stages[3].cmd.val, stages[4].cmd.val)
+__CPROVER_assigns(input->name, input->stages, osm, *g_errno, __CPROVER_object_whole(rec),
+                  stages[0].pid, stages[1].pid, stages[2].pid, stages[3].pid, stages[4].pid)
 ENSURES(POST);
-
-static char name_path[] = "d/t.c";
-static char name_dash[] = "-";
-static char out_path[] = "o.x";
-static char out_dash[] = "-";
-static char *const toolname[NSTAGES] = {"cpp", "cc", "qbe", "as", "ld"};
-
-static void
-mkstage(int i, unsigned nbase)
-{
-	char **v;
-	unsigned j;
-
-	__CPROVER_assume(nbase >= 1 && nbase <= 4);
-	v = malloc(4 * sizeof *v);
-	__CPROVER_assume(v != 0);
-	for (j = 0; j < 4; ++j)
-		v[j] = toolname[i];
-	stages[i].cmd.val = v;
-	stages[i].cmd.cap = 4 * sizeof *v;
-	stages[i].cmd.len = nbase * sizeof *v;
-	stages[i].cmdbase = nbase * sizeof *v;
-	stages[i].pid = 0;
-	g_arg0[i] = v[0];
-	g_base[i] = stages[i].cmdbase;
-}
 
 void
 harness(void)
 {
-	static struct input in;
+	/* DFCC makes every static object nondeterministic at the start: all inputs are built here */
+	char name_path[] = "d/t.c", name_dash[] = "-", out_path[] = "o.x", out_dash[] = "-";
+	struct input in;
 	struct input *input = &in;
 	char *output;
+	int i;
 
 	IN(int, in_ft);
 	IN(unsigned, in_stages);
 	IN(int, in_outmode);        /* 0: NULL, 1: "-", 2: a path */
 	IN(bool, in_namedash);
-	IN(unsigned, in_nb0); IN(unsigned, in_nb1); IN(unsigned, in_nb2); IN(unsigned, in_nb3); IN(unsigned, in_nb4);
 	/* the environment's choices */
 	IN(int, in_pidbase);
 	IN(int, in_sp0); IN(int, in_sp1); IN(int, in_sp2); IN(int, in_sp3);
@@ -170,10 +153,6 @@ harness(void)
 	IN(bool, in_wu0); IN(bool, in_wu1); IN(bool, in_wu2); IN(bool, in_wu3); IN(bool, in_wu4);
 	IN(int, in_ws0); IN(int, in_ws1); IN(int, in_ws2); IN(int, in_ws3); IN(int, in_ws4);
 	IN(int, in_nunknown);
-	IN(int, in_pe0); IN(int, in_pe1); IN(int, in_pe2);
-	IN(int, in_fe0); IN(int, in_fe1); IN(int, in_fe2); IN(int, in_fe3); IN(int, in_fe4); IN(int, in_fe5);
-	IN(int, in_fi0); IN(int, in_fi1); IN(int, in_fi2); IN(int, in_fi3);
-	IN(int, in_fo0); IN(int, in_fo1); IN(int, in_fo2);
 	IN(int, in_mk);
 	ING(int, g_k);
 
@@ -181,25 +160,17 @@ harness(void)
 	__CPROVER_assume(in_nunknown >= 0 && in_nunknown <= 1);
 	__CPROVER_assume(osm_status_valid(in_ws0) && osm_status_valid(in_ws1) && osm_status_valid(in_ws2) &&
 	                 osm_status_valid(in_ws3) && osm_status_valid(in_ws4));
-	/* errno values are positive */
-	__CPROVER_assume(in_pe0 >= 0 && in_pe1 >= 0 && in_pe2 >= 0 && in_mk >= 0);
-	__CPROVER_assume(in_fe0 >= 0 && in_fe1 >= 0 && in_fe2 >= 0 && in_fe3 >= 0 && in_fe4 >= 0 && in_fe5 >= 0);
+	__CPROVER_assume(in_mk >= 0);
 	osm_tape.pidbase = in_pidbase;
 	osm_tape.spawn_err[0] = in_sp0; osm_tape.spawn_err[1] = in_sp1; osm_tape.spawn_err[2] = in_sp2; osm_tape.spawn_err[3] = in_sp3;
 	osm_tape.wait_pick[0] = in_wp0; osm_tape.wait_pick[1] = in_wp1; osm_tape.wait_pick[2] = in_wp2; osm_tape.wait_pick[3] = in_wp3; osm_tape.wait_pick[4] = in_wp4;
 	osm_tape.wait_unknown[0] = in_wu0; osm_tape.wait_unknown[1] = in_wu1; osm_tape.wait_unknown[2] = in_wu2; osm_tape.wait_unknown[3] = in_wu3; osm_tape.wait_unknown[4] = in_wu4;
 	osm_tape.wait_status[0] = in_ws0; osm_tape.wait_status[1] = in_ws1; osm_tape.wait_status[2] = in_ws2; osm_tape.wait_status[3] = in_ws3; osm_tape.wait_status[4] = in_ws4;
 	osm_tape.nunknown = in_nunknown;
-	osm_tape.pipe_err[0] = in_pe0; osm_tape.pipe_err[1] = in_pe1; osm_tape.pipe_err[2] = in_pe2;
-	osm_tape.fcntl_err[0] = in_fe0; osm_tape.fcntl_err[1] = in_fe1; osm_tape.fcntl_err[2] = in_fe2;
-	osm_tape.fcntl_err[3] = in_fe3; osm_tape.fcntl_err[4] = in_fe4; osm_tape.fcntl_err[5] = in_fe5;
-	osm_tape.fa_init_err[0] = in_fi0; osm_tape.fa_init_err[1] = in_fi1; osm_tape.fa_init_err[2] = in_fi2; osm_tape.fa_init_err[3] = in_fi3;
-	osm_tape.fa_dup2_out_err[0] = in_fo0; osm_tape.fa_dup2_out_err[1] = in_fo1; osm_tape.fa_dup2_out_err[2] = in_fo2;
 	osm_tape.mkstemp_err = in_mk;
 	osm_reset();
-
-	mkstage(PREPROCESS, in_nb0); mkstage(COMPILE, in_nb1); mkstage(CODEGEN, in_nb2); mkstage(ASSEMBLE, in_nb3); mkstage(LINK, in_nb4);
-	flags.verbose = 0;
+	for (i = 0; i < NSTAGES; ++i)
+		stages[i].pid = 0;
 
 	__CPROVER_assume(in_ft >= ASM && in_ft <= QBE);
 	__CPROVER_assume(in_stages >= 1 && in_stages <= 31);
@@ -210,6 +181,7 @@ harness(void)
 	input->lib = 0;
 	output = in_outmode == 0 ? 0 : in_outmode == 1 ? out_dash : out_path;
 
+	g_errno = &errno;
 	g_ft = in_ft; g_stages0 = in_stages; g_name0 = input->name; g_out = output;
 	g_outdash = in_outmode == 1; g_namedash = in_namedash;
 
